@@ -27,8 +27,11 @@ for rid in sorted(rules, key=keyf):
 inv = "\n".join(out)
 
 idx = json.load(open(os.path.join(VERIF, "mutants", "index.json")))["mutants"] if os.path.exists(os.path.join(VERIF, "mutants", "index.json")) else {}
-rows = ["| change | property it breaks | what it needs to manifest | reported by the checks of | round 2: reported at first contact (before any follow-up) |", "|---|---|---|---|---|"]
-fc = json.load(open(os.path.join(VERIF, "seeded", "round2_first_contact.json"))) if os.path.exists(os.path.join(VERIF, "seeded", "round2_first_contact.json")) else {}
+rows = ["| change | property it breaks | what it needs to manifest | reported by the checks of | rounds 2 and 3: reported at first contact (before any follow-up) |", "|---|---|---|---|---|"]
+fc = {}
+for rnd in ("round2_first_contact.json", "round3_first_contact.json"):
+    if os.path.exists(os.path.join(VERIF, "seeded", rnd)):
+        fc.update({k: v for k, v in json.load(open(os.path.join(VERIF, "seeded", rnd))).items() if not k.startswith("_")})
 sd = os.path.join(VERIF, "seeded")
 for d in sorted(os.listdir(sd)) if os.path.isdir(sd) else []:
     mp = os.path.join(sd, d, "meta.json")
